@@ -48,7 +48,11 @@ func (its *WiredDatatype) ReceiveRemoteModelOperations(ops []*model.Operation, o
 		var transaction []*model.Operation
 		switch modelOp.GetOpType() {
 		case model.TypeOfOperation_TRANSACTION:
-			txOp := operations.ModelToOperation(modelOp).(*operations.TransactionOperation)
+			op, dErr := operations.DecodeModelOperation(modelOp)
+			if dErr != nil {
+				return nil, errors.DatatypeTransaction.New(its.L(), dErr.Error())
+			}
+			txOp := op.(*operations.TransactionOperation)
 			numOfOps := int(txOp.GetNumOfOps())
 			if numOfOps < 1 || numOfOps > len(ops)-i {
 				return nil, errors.DatatypeTransaction.New(its.L(), "not matched number of operations")
